@@ -170,8 +170,12 @@ def worker(job):
                     if fs is None:
                         continue
                     done.add(key)
+                    seenk = set()
                     for f in fs:
                         f['site'] = key
+                        if f['kind'] in seenk:
+                            continue
+                        seenk.add(f['kind'])
                         r['findings'].append(f)
             r['sites'] = len(allsites)
             r['sites_checked'] = len(done)
@@ -230,11 +234,12 @@ def opcode_check(ck, corpus, R, inv):
         kinds = ('cmsg', 'msg') if side == 'client' else ('smsg', 'msg')
         defined = sorted(set(c['opcode'] for c in view['containers'].values() if c['k'] in kinds and not corpus.is_test_object(c)))
         errty, enames = err_kind_names(R, root)
-        op = z3.BitVec('opcode', 32)
+        opw = R.prog.int_info(root['sig']['args'][0])[0]
+        op = z3.BitVec('opcode', opw)
         bsz = z3.BitVec('body_size', 32)
         L = 4
         buf = [z3.BitVec('raw%d' % i, 8) for i in range(L)]
-        cons = [z3.And(*[op != v for v in defined])]
+        cons = [z3.And(*[op != v for v in defined if v < (1 << opw)])]
         R.ex.set_assumptions(cons)
         n += 1
         try:
@@ -264,7 +269,7 @@ def opcode_check(ck, corpus, R, inv):
                                 v = mm.eval(op, model_completion=True).as_long()
                                 ck.violation('wow_world_messages::%s::opcodes::%s/unknown-opcode' % (exp, side), 'undefined opcode %#x yields error %s instead of the opcode error' % (v, enames[d2]), {'opcode': v, 'exp': exp, 'side': side})
                             continue
-                        mm = R.sat(cons + pc + [c2, f2[0] != op])
+                        mm = R.sat(cons + pc + [c2, f2[0] != (z3.ZeroExt(32 - opw, op) if opw < 32 else op)])
                         if mm is not None:
                             v = mm.eval(op, model_completion=True).as_long()
                             ck.violation('wow_world_messages::%s::opcodes::%s/unknown-opcode-value' % (exp, side), 'opcode error for %#x reports %s' % (v, mm.eval(f2[0], model_completion=True)), {'opcode': v, 'exp': exp, 'side': side})
